@@ -40,7 +40,7 @@ def lm_rows(L):
 class BandLimited:
     """Random function with harmonic content l <= L around ``center``."""
 
-    def __init__(self, rng, L, r0, center, sparse=False):
+    def __init__(self, rng, L, r0, center, sparse=False, irregular=False):
         self.L = int(L)
         self.r0 = float(r0)
         self.center = np.asarray(center, dtype=float)
@@ -54,6 +54,10 @@ class BandLimited:
             keep[self.l == self.L] = True  # the band edge is always populated
             c = np.where(keep, c, 0.0)
         self.c = c
+        # irregular=True adds q_lm e^{-alpha t} to the l >= 1 components: they no longer vanish at r = 0, so f is NOT a
+        # function of position at the centre - admissible only on grids that never sample r = 0 (no shell there); it makes
+        # the library's splines O(1) at r = 0 for odd l, which is what the centre convention (theta = phi = 0) acts on
+        self.q = np.where(self.l > 0, rng.uniform(0.3, 1.0, n) * np.sign(rng.normal(size=n)), 0.0) if irregular else np.zeros(n)
         self.p1 = rng.uniform(-0.4, 0.4, n)
         self.p2 = rng.uniform(0.0, 0.3, n)
         self.alpha = rng.uniform(1.0, 2.5, n) * (1.0 + 0.35 * self.l)
@@ -71,7 +75,10 @@ class BandLimited:
         out[:, pos] = np.exp(ex)
         out[:, ~pos] = (self.l == 0)[:, None] * 1.0
         poly = 1.0 + self.p1[:, None] * t[None, :] + self.p2[:, None] * t[None, :] ** 2
-        return self.c[:, None] * out * poly
+        res = self.c[:, None] * out * poly
+        if np.any(self.q):
+            res = res + (self.c * self.q)[:, None] * np.exp(-self.alpha[:, None] * t[None, :])
+        return res
 
     def __call__(self, points):
         d = np.asarray(points, dtype=float) - self.center
